@@ -392,6 +392,19 @@ equiv('attributes-returns-copy', [], ('base.py',
 equiv('body-ctor-annotated', [], ('body.py',
       "        self.value = value\n", "        self.value: bytes = value\n"))
 
+# ---- syntax / spelling variants (round 3)
+equiv('decode-via-str-constructor', [], ('decode.py',
+      "return length + 1, value[1:length + 1].decode('utf-8')",
+      "return length + 1, str(value[1:length + 1], 'utf-8')"))
+equiv('encode-via-bytes-constructor', [], ('encode.py',
+      "    temp = value.encode('utf-8')", "    temp = bytes(value, 'utf-8')"))
+equiv('walrus-byte-count', [], ('frame.py',
+      "    byte_count = constants.FRAME_HEADER_SIZE + frame_size + 1\n    if byte_count > len(data_in):",
+      "    if (byte_count := constants.FRAME_HEADER_SIZE + frame_size + 1) > len(data_in):"))
+equiv('match-on-frame-type', [], ('frame.py',
+      "    if frame_type == constants.FRAME_METHOD:\n        return byte_count, channel_id, _unmarshal_method_frame(frame_data)\n    elif frame_type == constants.FRAME_HEADER:\n        return byte_count, channel_id, _unmarshal_header_frame(frame_data)\n    elif frame_type == constants.FRAME_BODY:\n        return byte_count, channel_id, _unmarshal_body_frame(frame_data)",
+      "    match frame_type:\n        case constants.FRAME_METHOD:\n            return byte_count, channel_id, _unmarshal_method_frame(frame_data)\n        case constants.FRAME_HEADER:\n            return byte_count, channel_id, _unmarshal_header_frame(frame_data)\n        case constants.FRAME_BODY:\n            return byte_count, channel_id, _unmarshal_body_frame(frame_data)"))
+
 json.dump(F, open(os.path.join(HERE, 'faults.json'), 'w'), indent=1)
 json.dump(E, open(os.path.join(HERE, 'equivalents.json'), 'w'), indent=1)
 print(len(F), 'faults', len(E), 'equivalents')
